@@ -28,7 +28,8 @@ BINNINGS = {
     "b1": ([0.125, 0.5, 1.0], "right"),
     "b2": ([0.125, 0.625, 1.0], "right"),      # other edges, same number of bins
     "b1L": ([0.125, 0.5, 1.0], "left"),        # other closed side
-    "b3": ([0.125, 0.375, 1.0], "right"),      # a third request never written by a workload
+    "b3": ([0.125, 0.375, 1.0], "right"),      # a third request (written only by the generated rebuild workloads)
+    "b4": ([0.125, 0.375, 0.625, 1.0], "right"),   # ANOTHER NUMBER of bins (3): stale trees are loud in one direction only
     "none": (None, "right"),                    # unbinned
 }
 ID_OFFSET = {"A": 0, "B": 100000, "U": 200000, "UR": 300000, "R0": 400000}
